@@ -174,7 +174,10 @@ inline void Exec::new_setfreq(int ki, int ni, bool force_valid, int replace_mode
     if (N.freq_set && ok) c.label(refused_range ? "setfreq-replace:refused-range" : "setfreq-replace:accepted");
     else if (N.freq_set) c.label("setfreq-replace:refused-invalid-vector");
     Call k = mk("vnacal_new_set_frequency_vector", ex, C_USAGE, why, O_NEW, ki, ni);
-    int rc = icall(k, [&] { return vnacal_new_set_frequency_vector(N.p, fb->p); });
+    // the vector may be the library's own: the frequency vector of a calibration of the same vnacal_t with exactly these values
+    const double *farg = fb->p;
+    if (ok && alias_turn()) { int end = vnacal_get_calibration_end(K.p); for (int ci = 0; ci < end && farg == fb->p; ci++) if (vnacal_get_name(K.p, ci) && vnacal_get_frequencies(K.p, ci) == N.F) { const double *cv = vnacal_get_frequency_vector(K.p, ci); bool same = cv != nullptr; for (int f = 0; same && f < N.F; f++) if (!same_bits(cv[f], fv[f])) same = false; if (same) { farg = cv; c.label("alias:vnacal_new_set_frequency_vector"); } } }
+    int rc = icall(k, [&] { return vnacal_new_set_frequency_vector(N.p, farg); });
     if (rc == 0) {
         N.freq_set = true; N.cur_freq = fv;
         if (replaced_inside && fv != N.sc.freq) N.pristine = false;      // vector standards are now interpolated between their knots: no accuracy claims
@@ -575,7 +578,8 @@ inline void Exec::quick_calibration(int ki) {
     std::string name = CAL_NAMES[c.draw(sizeof CAL_NAMES / sizeof *CAL_NAMES)];
     c.note("vnacal_add_calibration(k%d, %s, k%d.n%d)", ki, ascii(name).c_str(), ki, ni);
     Call k = mk("vnacal_add_calibration", XP_OK, C_USAGE, "valid", O_CAL, ki);
-    int ci = icall(k, [&] { return vnacal_add_calibration(K.p, name.c_str(), N.p); });
+    const char *narg = name_arg(K, name, "vnacal_add_calibration");
+    int ci = icall(k, [&] { return vnacal_add_calibration(K.p, narg, N.p); });
     if (ci >= 0) { N.has_cal = false; check_cal_index(ki, ci, name, &N); }
 }
 
@@ -678,7 +682,8 @@ inline void Exec::replace_freq_scenario(int ki) {
     std::string name = CAL_NAMES[c.draw(sizeof CAL_NAMES / sizeof *CAL_NAMES)];
     c.note("vnacal_add_calibration(k%d, %s, k%d.n%d)", ki, ascii(name).c_str(), ki, ni);
     Call k = mk("vnacal_add_calibration", XP_OK, C_USAGE, "valid", O_CAL, ki);
-    int ci = icall(k, [&] { return vnacal_add_calibration(K.p, name.c_str(), N.p); });
+    const char *narg = name_arg(K, name, "vnacal_add_calibration");
+    int ci = icall(k, [&] { return vnacal_add_calibration(K.p, narg, N.p); });
     if (ci >= 0) { N.has_cal = false; check_cal_index(ki, ci, name, &N); }
 }
 
